@@ -43,6 +43,10 @@ theorem sumBy_zero {α : Type} (f : α → Int) (l : List α) (h : ∀ x ∈ l, 
     rw [sumBy_cons, h x (List.mem_cons_self ..), ih (fun y hy => h y (List.mem_cons_of_mem _ hy))]
     rfl
 
+theorem getPart_mem {b : Book} {i : Nat} {p : Part} (h : b.getPart i = some p) : p ∈ b.parts := by
+  unfold Book.getPart at h
+  exact (lookup_mem h).1
+
 theorem getMarket_mem {s : State} {u : Nat} {m : Market} (h : getMarket s u = some m) : m ∈ s.markets :=
   (lookup_mem h).1
 
